@@ -98,15 +98,24 @@ pub async fn make() {
     for t in read_traces() {
         let path = dir.join("state.log");
         let _ = std::fs::remove_file(&path);
-        let st = new_state(path.to_str().unwrap());
+        let mut st = new_state(path.to_str().unwrap());
         st.init().await.unwrap();
         let mut bounds = vec![0usize];
         let mut clock = crate::srv::T0;
         let mut results = vec![];
         let mut value_rt: Vec<bool> = vec![];
+        let mut reopen_failed: Option<String> = None;
         for c in t["cmds"].as_array().unwrap() {
             clock += 1000;
             verif_clock::set(clock);
+            // "reopen": the server restarts before this command - a new FileState is initialised on the journal written so far
+            if c.get("reopen").and_then(|v| v.as_bool()).unwrap_or(false) {
+                st = new_state(path.to_str().unwrap());
+                if let Err(e) = st.init().await {
+                    reopen_failed = Some(e.as_string().to_string());
+                    break;
+                }
+            }
             // "fail": the append of this command fails (the journal path is a directory for the duration of the call)
             let fail = c.get("fail").and_then(|v| v.as_bool()).unwrap_or(false);
             let away = dir.join("state.log.away");
@@ -136,7 +145,7 @@ pub async fn make() {
             bounds.push(std::fs::metadata(&path).map(|m| m.len() as usize).unwrap_or(0));
         }
         let bytes = std::fs::read(&path).unwrap_or_default();
-        println!("{}", json!({"id": t["id"], "hex": hex(&bytes), "bounds": bounds, "applied": results, "value_rt": value_rt,
+        println!("{}", json!({"id": t["id"], "hex": hex(&bytes), "bounds": bounds, "applied": results, "value_rt": value_rt, "reopen_failed": reopen_failed,
             "version": SemanticVersion::current().unwrap().get_numeric_version().unwrap()}));
     }
     let _ = std::fs::remove_dir_all(&dir);
